@@ -493,7 +493,7 @@ type DevEdit struct {
 }
 
 func isKey(r sg.NodeRef) bool {
-	return r.Parent != nil && r.Parent.Kind == "list" && r.Node.Name == r.Parent.Key
+	return r.Parent != nil && r.Parent.Kind == "list" && r.Parent.IsKey(r.Node.Name)
 }
 
 // uniqueNodes: every node that a unique statement of the module names, directly or as a step of a descendant path
